@@ -394,6 +394,21 @@ pub fn check_copy(case: &CopyCase) -> CaseResult {
                 }
             }
         }
+        // wherever the copies are placed, they are copies of what existed when the call started: a new entry
+        // below the destination root carries the name of something that was there before (the source is
+        // snapshotted before the first mutation - the fresh destination root is not part of it)
+        let mut names: std::collections::BTreeSet<String> = pre.nodes.keys().map(|k| crate::refpath::base(k)).collect();
+        // (a followed link contributes the components of its target path, also when the target is missing)
+        for n in pre.nodes.values() {
+            if let Node::Link { target, .. } = n {
+                names.extend(target.split('/').filter(|c| !c.is_empty()).map(|c| c.to_string()));
+            }
+        }
+        for k in post.nodes.keys() {
+            if !pre.nodes.contains_key(k) && is_under(k, &base) && k != &base && !names.contains(&crate::refpath::base(k)) {
+                return fail("follow-copy-invented-entry", format!("{:?} appeared below the destination but nothing of that name existed when the call started", k));
+            }
+        }
         return Ok(());
     }
     if s == d || base == s {
